@@ -116,7 +116,7 @@ fn prefix_suffix<T: Scalar>(spec: &Spec, k: usize, pdepth: usize, st: &mut Stats
     // reference: fresh instance over every suffix in Z3^k
     let mut fresh: HashMap<Vec<u64>, String> = HashMap::new();
     {
-        let root = build::<T>(spec);
+        let Some(root) = build_or_report::<T>("C03", spec, sink) else { return };
         let mut st2 = Stats::default();
         tree::<T, Dyn<T>>(
             &root,
@@ -135,7 +135,7 @@ fn prefix_suffix<T: Scalar>(spec: &Spec, k: usize, pdepth: usize, st: &mut Stats
         st.transitions += st2.states;
     }
     let palpha = cat(&Z3, &BIG);
-    let root = build::<T>(spec);
+    let Some(root) = build_or_report::<T>("C03", spec, sink) else { return };
     // outer tree: prefixes (the empty prefix is the fresh instance itself)
     let mut prefixes: Vec<(Vec<f64>, Dyn<T>)> = vec![];
     let mut stp = Stats::default();
@@ -230,7 +230,8 @@ fn single_valued(spec: &Spec, k: usize, alpha: &[f64], cap: usize, st: &mut Stat
     }
     st.configs += 1;
     let mut table: HashMap<Vec<u64>, (Option<f64>, Vec<f64>)> = HashMap::new();
-    let root = S { v: build::<f64>(spec), recent: vec![] };
+    let Some(v0) = build_or_report::<f64>("C03", spec, sink) else { return false };
+    let root = S { v: v0, recent: vec![] };
     let res = closure::<S>(
         root,
         alpha,
